@@ -181,10 +181,10 @@ def run(W, p):
     y2 += ["forcing:", "    module: ladim.ROMS", f"    filename: {forcing_name}"]
     if flags["extra_forcing"]:
         y2.append("    extra_forcing: [temp, salt]")
-    st_i = (["age: float"] if flags["has_ibm"] else [])
+    st_i = (["age: float"] if flags["has_ibm"] else []) + (["temp: float", "salt: float"] if flags["extra_forcing"] else [])  # extra forcing fields are state variables
     st_p = (["super: float", "farm: int"] if flags["has_pvars"] else [])  # a non-default type: the legacy per-column converter must survive
     y2 += ["state:", "    instance_variables: {" + ", ".join(st_i) + "}", "    particle_variables: {" + ", ".join(st_p) + "}",
-           "    default_values: {" + (", ".join(["age: 0"]) if flags["has_ibm"] else "") + "}"]
+           "    default_values: {" + ", ".join((["age: 0"] if flags["has_ibm"] else []) + (["temp: 0", "salt: 0"] if flags["extra_forcing"] else [])) + "}"]
     y2 += ["tracker:", "    advection: RK4"] + ([f"    diffusion: {diff}"] if flags["diffusion"] else [])
     y2 += ["release:", "    release_file: rel.rls", f"    names: [{', '.join(relvars)}]"]
     if flags["continuous"]:
@@ -215,9 +215,9 @@ def run(W, p):
     t2 += ["[forcing]", 'module = "ladim.ROMS"', f"filename = {tq(forcing_name)}"]
     if flags["extra_forcing"]:
         t2.append('extra_forcing = ["temp", "salt"]')
-    t2 += ["[state]", "instance_variables = {" + ('age = "float"' if flags["has_ibm"] else "") + "}",
+    t2 += ["[state]", "instance_variables = {" + ", ".join((['age = "float"'] if flags["has_ibm"] else []) + (['temp = "float"', 'salt = "float"'] if flags["extra_forcing"] else [])) + "}",
            "particle_variables = {" + ('super = "float", farm = "int"' if flags["has_pvars"] else "") + "}",
-           "default_values = {" + ("age = 0" if flags["has_ibm"] else "") + "}"]
+           "default_values = {" + ", ".join((["age = 0"] if flags["has_ibm"] else []) + (["temp = 0", "salt = 0"] if flags["extra_forcing"] else [])) + "}"]
     t2 += ["[tracker]", 'advection = "RK4"'] + ([f"diffusion = {diff}"] if flags["diffusion"] else [])
     t2 += ["[release]", 'release_file = "rel.rls"', "names = [" + ", ".join(tq(v) for v in relvars) + "]"]
     if flags["continuous"]:
